@@ -90,6 +90,8 @@ package sync
 //@   ghost sherr error := result1 of call Head #0
 //@   before Add [C03,C07] only-unsynced-targets: called(sh) && (sherr != nil || sh.Height() < netHead.Height()) -- a header the store already holds (or passed) never becomes a pending target: it could not be removed again and would keep the subjective head stale
 //@   before wantSync [C07] target-recorded-before-wakeup: pendingAdds == old(pendingAdds) + 1 -- the sync loop must find the new target when the trigger wakes it
+//@   ghost woke error := result0 of call wantSync #0
+//@   ensures [C07] every-target-wakes-the-loop: pendingAdds == old(pendingAdds) + 1 ==> called(woke) -- also a head that merely extends the last pending range: a running sync has fixed its target already
 //@   modifies AP_set, AP_val_Hdr, elems(H), EH_Int, headerRange.headers, headerRange.start, ranges.ranges, $now, ghost:storeAppends, ghost:appendedTop, errNonAdjacent.Head, errNonAdjacent.Attempted, ghost:pendingAdds, ghost:pendingReads
 
 // chainFrom(a, b): b is reached from a through a chain of successful header.Verify calls (history predicate:
@@ -322,6 +324,8 @@ package sync
 //@   ghost sbj H := result0 of call subjectiveHead #0
 //@   ghost sbjInit bool := result1 of call subjectiveHead #0
 //@   ghost sbjErr error := result2 of call subjectiveHead #0
+//@   ghost shared H := result0 of call (*syncHead).Head #0
+//@   ensures [C19] request-goes-through-the-single-flight: headCalls == old(headCalls) + 1 && called(sbj) && sbjErr == nil && !sbjInit ==> called(shared) -- concurrent callers over a stale head share one request: the request is made through syncHead, never directly at the getter
 //@   modifies AP_set, AP_val_Hdr, elems(H), EH_Int, headerRange.headers, headerRange.start, ranges.ranges, $now, ghost:storeAppends, ghost:appendedTop, errNonAdjacent.Head, errNonAdjacent.Attempted, header.VerifyError.SoftFailure, ghost:headCalls, ghost:lastTrusted, syncHead.headCh, syncHead.resHead, syncHead.resErr, ghost:pendingAdds, ghost:pendingReads
 //@   ensures [C19] error-only-from-subjective: result2 != nil <==> (called(sbjErr) && sbjErr != nil)
 //@   ensures [C19] no-downgrade: result2 == nil ==> result0.Height() >= sbj.Height() && !result0.IsZero()
